@@ -299,6 +299,9 @@ func (c *context) SendMsg(m *protocol.Message) error {
 		c.cancelSend()
 		c.sendMsg = nil
 		c.reqID = 0
+		// A Recv may already be waiting for the reply to this request;
+		// it has to notice that the request is gone.
+		c.cond.Broadcast()
 		if c.closed {
 			return protocol.ErrClosed
 		}
